@@ -7,7 +7,7 @@ from vf import detmodel
 from vf.quiet import quiet
 
 EVAL_ATOMS = ['abs', 'norm1', 'norm2', 'norminf', 'pnorm', 'square', 'sumsqr', 'quad', 'power', 'exp', 'log', 'softplus',
-              'entropy', 'sumexp', 'sumlog']
+              'entropy', 'sumexp', 'sumlog', 'pexp', 'plog']
 VALS = [-2.0, -1.5, -1.0, -0.5, 0.5, 1.0, 1.5, 2.0, 2.5, 3.0]
 
 
@@ -39,6 +39,9 @@ def ro_case(draw):
             L = np.array([[draw(st.sampled_from([-1.0, 1.0, 2.0])) if j <= i else 0.0 for j in range(k)] for i in range(k)])
             a['nsd'] = draw(st.booleans())
             a['Q'] = ((-1 if a['nsd'] else 1) * (L @ L.T)).tolist()
+        if name in ('pexp', 'plog'):       # scale: a positive number or an affine expression of the variables with a positive value
+            a['sM'] = [detmodel._row(draw, size, 0.4)] if draw(st.booleans()) else [[0.0] * size]
+            a['sv'] = [draw(st.sampled_from([0.5, 1.5, 2.0])) - float(np.array(a['sM'][0]) @ np.array(V))]
         a['mult'] = draw(st.sampled_from([1.0, 2.0, 0.5, -1.0, -3.0]))
         a['off'] = draw(st.sampled_from([0.0, 2.0, -1.5]))
         a['aff'] = detmodel._row(draw, size, 0.4) if draw(st.booleans()) else None
@@ -300,7 +303,7 @@ class C12(Prop):
             f = detmodel._atom_expr(a, xf)
             u = np.array(a['M']) @ Vf + np.array(a['v'])
             with np.errstate(all='ignore'):
-                fv = detmodel.atom_value(a, u)
+                fv = detmodel.atom_value(a, u, (np.array(a['sM']) @ Vf + np.array(a['sv'])) if 'sM' in a else None)
             expr = a['mult'] * f + a['off']
             want = a['mult'] * np.asarray(fv) + a['off']
             if a['aff'] is not None:
